@@ -54,7 +54,8 @@ func (f FReader) read() (string, error) {
 	if err != nil && line != "" { // last line without a line break
 		return line, nil
 	}
-	return line, err
+	// like readline, hand over the line without its line break
+	return strings.TrimSuffix(line, "\n"), err
 }
 
 func (f FReader) Close() error { return f.r.Close() }
